@@ -590,6 +590,27 @@ def method_call(ev, recv, name, args, kwargs, fr, node):
         return T.raw_op('JOIN', recv, args[0])
     if name == 'split' and T.is_op(recv, 'JOIN') and args and args[0] == recv[2] and T.tag(recv[3]) == 'list':
         return recv[3]         # parts are separator-free by construction of the symbolic input
+    if name == 'split' and T.is_op(recv, 'CAT') and len(args) == 1 and T.is_const(args[0]) \
+            and isinstance(args[0][1], str) and len(args[0][1]) == 1 and args[0][1] not in '0123456789-':
+        # text made of constant pieces and decimal renderings of integers: the separator can only occur in the
+        # constant pieces
+        sep = args[0][1]
+        comps, cur, ok = [], [], True
+        for seg in recv[2:]:
+            if T.is_const(seg) and isinstance(seg[1], str):
+                pieces = seg[1].split(sep)
+                cur.append(T.const(pieces[0]))
+                for pc in pieces[1:]:
+                    comps.append(T.cat(*cur) if cur else T.const(''))
+                    cur = [T.const(pc)]
+            elif T.is_op(seg, 'STR') and T.type_of(seg[2]) == 'int':
+                cur.append(seg)
+            else:
+                ok = False
+                break
+        if ok:
+            comps.append(T.cat(*cur) if cur else T.const(''))
+            return T.lst(comps)
     if name in ('split', 'rsplit'):
         if T.is_const(recv) and all(T.is_const(a) for a in args):
             return T.lst([T.const(x) for x in getattr(recv[1], name)(*[a[1] for a in args])])
